@@ -230,6 +230,25 @@ fn grammar() -> Grammar
 	}
 }
 
+/// one body of the exhaustive enumeration (quick bound), drawn at random (used by C02)
+pub fn enumerated_source(c: &mut Choices) -> String
+{
+	thread_local! {
+		static CNT: std::cell::RefCell<Option<Counter>> = std::cell::RefCell::new(None);
+	}
+	let r = c.u64();
+	let body = CNT.with(|k| {
+		let mut k = k.borrow_mut();
+		if k.is_none()
+		{
+			*k = Some(Exhaustive::counter(Tier::Quick));
+		}
+		let k = k.as_ref().unwrap();
+		k.unrank(((r as u128 * k.total() as u128) >> 64) as u64)
+	});
+	render(&body)
+}
+
 struct Exhaustive;
 impl Exhaustive
 {
